@@ -516,6 +516,9 @@ func runC19(c *Ctx) {
 	}
 	// search arguments on healthy databases (empty and non-empty, indexed and not)
 	fields := []string{"A", "S", "P", "L", "K", "T", "F64", "U16", "In.Tag", "In.Lvl", "Emb.E", "Nope", "", "In", "In.", ".A", "A.B", "In.Tag.X", "Emb", "Sl", "M", "Ptr", "Item", "Item.uuid", "Emb.E", "Emb.e", "In.tag"}
+	// paths that designate nothing in Rec: a search on them cannot be evaluated
+	noSuchField := map[string]bool{"Nope": true, "": true, "In.": true, ".A": true, "A.B": true, "In.Tag.X": true, "Emb.e": true, "In.tag": true, "Item.uuid": true, "S.S": true, "T.wall": true, "Emb.E.E": true, "A.": true, "K.K.K": true}
+	fields = append(fields, "S.S", "T.wall", "Emb.E.E", "A.", "K.K.K")
 	ops := []string{"=", "!=", "<", "<=", ">", ">=", "~=", "<>", "", "==", "and"}
 	one := 1
 	values := []interface{}{int(1), int8(1), int16(1), int32(1), int64(1), uint(1), uint8(1), uint16(1), uint32(1), uint64(1), float32(1), 1.5, "x", "(", "", true, nil, []int{1}, map[string]int{"a": 1}, struct{ X int }{1}, &one, tabT[1], &Rec{}, []byte("x"), 'r', complex(1, 1)}
@@ -537,6 +540,9 @@ func runC19(c *Ctx) {
 							p := safeCall(func() {
 								s := w.DB.Search(&Rec{}, f, op, v)
 								objs, _ := s.Collect()
+								if noSuchField[f] && (s.Err() == nil || len(objs) > 0) {
+									viol = append(viol, Violation{Sig: "C19|unknown-field-evaluated|field=" + f, What: fmt.Sprintf("Search(%q %q %T): %q is not a field of the object, yet the search reports %v and returns %d objects", f, op, v, f, s.Err(), len(objs)), Cfg: cfg, Path: content})
+								}
 								if s.Err() != nil && len(objs) > 0 {
 									viol = append(viol, Violation{Sig: "C19|objects-despite-error|args", What: fmt.Sprintf("Search(%q %q %T) reported %v but returned %d objects", f, op, v, s.Err(), len(objs)), Cfg: cfg})
 								}
